@@ -586,6 +586,10 @@ func (chs *ClientHelloSpec) UnmarshalJSON(jsonB []byte) error {
 		return err
 	}
 
+	if chsju.CipherSuites == nil || chsju.CompressionMethods == nil || chsju.Extensions == nil {
+		return errors.New("cipher_suites, compression_methods and extensions are required")
+	}
+
 	*chs = chsju.ClientHelloSpec()
 	return nil
 }
